@@ -89,4 +89,13 @@ func init() {
 		Rule:      "one evaluation = one power-loss image: at every crash point of a recorded workload (with Sync calls, AutoSync in half of the runs, Close) each file is cut back to a length between its last fsynced length and its current length (all-synced, all-full and seeded mixes incl. cuts inside records); after Open(Recover) every message below the acknowledged watermark must be present, the recovered list must be a prefix of the crash-time list and NextOffset >= watermark; distinct_nontrivial counts distinct crash-point classes at which an image actually lost un-synced bytes",
 		Assume:    kAssume,
 		Technique: "deterministic simulation with fault injection: power-loss images (per-file tail loss down to the fsynced length) enumerated from the recorded FS trace"})
+	dAssume := append([]string{"validity of a record is decided by the independent reference codec (CRC-32C, trailer, length sanity); single-byte damage is always detected by CRC-32C"}, commonAssume...)
+	register(&PropDef{ID: "C07", Engine: "D", Gen: genPlanD, RunPlan: runPlanD, Level: "fault_enumeration", QuickS: 45, ThorS: 600,
+		Rule:      "one evaluation = one damaged head segment: a first segment of 3-12 random messages (V2, and V1 for truncations; four index configurations) is built through the real API, then damaged: undamaged, truncation at 0 and every length >= 8, (V2) every byte position >= 8 flipped / 0x00 / 0xFF / random, zero / 0xFF / random / duplicated-record tails of every length up to two records, index removed / truncated at every length / every byte flipped / extra items (quick: seeded sample of 300 per segment; thorough: all); Check and Open(Check) must accept exactly the clean segments, Recover and Open(Recover) must leave exactly the reference codec's longest valid prefix with a matching (or no) index, be a no-op when undamaged, and the result must pass Check before and after further appends; distinct_nontrivial counts distinct (damage kind, file, version, clean?, surviving-prefix length, index present) classes",
+		Assume:    dAssume,
+		Technique: "deterministic simulation with fault injection: enumerated stored-byte damage of a head segment, Recover/Check vs reference codec longest-valid-prefix"})
+	register(&PropDef{ID: "C14", Engine: "D", Gen: genPlanD, RunPlan: runPlanD, Level: "fault_enumeration", QuickS: 45, ThorS: 600,
+		Rule:      "one evaluation = one damaged multi-segment V2 log: a 3-5 segment log with keys repeated across segments is built through the real API and one *.log is damaged (single-bit flips, 1-8 byte overwrites, truncation at every length, zero-filled tails; quick: seeded sample of 400 per log, thorough: every position and bit of one segment); the log is reopened with default options and Consume (all offsets x maxCount 1,3,40), Get, GetByKey, ConsumeByKey, GetByTime run under recover() and an allocation meter: never a wrong message, no panic, bounded allocation; for in-place overwrites inside a record every call whose undamaged answer includes the record must fail and every call answered from other files must be unchanged; distinct_nontrivial counts distinct (damage kind, in-record?, damaged segment position) classes",
+		Assume:    dAssume,
+		Technique: "deterministic simulation with fault injection: enumerated stored-byte damage of one segment of a multi-segment log, differential read battery with must-error / must-equal / never-wrong classification"})
 }
